@@ -147,6 +147,30 @@ theorem goodSwap_serial : GoodSwap (performSwaps I) :=
    fun pos gs eqs s => (performSwaps_frame I pos gs eqs s).2,
    performSwaps_perm I⟩
 
+theorem decideSwaps_frame : ∀ (pos : Nat) (gs : List (Replica H)) (us : List Rat) (eqs : List Bool),
+    (decideSwaps I pos gs us eqs).1.map Replica.frame = gs.map Replica.frame ∧
+    (decideSwaps I pos gs us eqs).1.map (·.cutoff) = gs.map (·.cutoff) ∧
+    ((decideSwaps I pos gs us eqs).1.map (·.cfg)).Perm (gs.map (·.cfg))
+  | pos, a :: b :: rest, u :: us, eq :: eqs => by
+    have ih := decideSwaps_frame (pos + 2) rest us eqs
+    have hf := swapOnChunks_frame I a b u (!eq)
+    simp only [decideSwaps, List.map_cons]
+    refine ⟨by rw [hf.1, hf.2.1, ih.1], by rw [hf.2.2.1, hf.2.2.2, ih.2.1], ?_⟩
+    rcases swapOnChunks_cfg I a b u (!eq) with h | h
+    · rw [h.1, h.2.1]
+      exact (List.Perm.swap _ _ _).trans ((ih.2.2.cons _).cons _)
+    · rw [h.1, h.2.1]
+      exact (ih.2.2.cons _).cons _
+  | _, [], _, _ => by simp [decideSwaps]
+  | _, [_], _, _ => by simp [decideSwaps]
+  | _, _ :: _ :: _, [], _ => by simp [decideSwaps]
+  | _, _ :: _ :: _, _ :: _, [] => by simp [decideSwaps]
+
+theorem goodSwap_parallel : GoodSwap (parallelPerformSwaps I) :=
+  ⟨fun pos gs eqs s => (decideSwaps_frame I pos gs _ eqs).1,
+   fun pos gs eqs s => (decideSwaps_frame I pos gs _ eqs).2.1,
+   fun pos gs eqs s => (decideSwaps_frame I pos gs _ eqs).2.2⟩
+
 theorem split_first {α : Type} (gs : List α) :
     firstSub gs ++ gs.drop (firstLen gs.length) = gs := List.take_append_drop _ _
 
@@ -420,16 +444,16 @@ theorem frame_ham (gs gs' : List (Replica H)) (h : gs.map Replica.frame = gs'.ma
   have := congrArg (List.map (fun f : H × Rat × Rat × Nat × Nat => f.1)) h
   simpa [List.map_map, Function.comp_def, Replica.frame] using this
 
-theorem cacheValid_step (c : Container H) (h : CacheValid I c) :
-    CacheValid I (stepBody I (performSwaps I) c).1 := by
-  have sp := stepBody_spec I (performSwaps I) (goodSwap_serial I) c
+theorem cacheValid_stepBody (fa : SwapFn H) (hfa : GoodSwap fa) (c : Container H)
+    (h : CacheValid I c) : CacheValid I (stepBody I fa c).1 := by
+  have sp := stepBody_spec I fa hfa c
   have hh := frame_ham _ _ sp.1
-  have hl : (stepBody I (performSwaps I) c).1.graphs.length = c.graphs.length := by
+  have hl : (stepBody I fa c).1.graphs.length = c.graphs.length := by
     simpa using congrArg List.length hh
-  have core := stepCore_spec I (performSwaps I) (goodSwap_serial I) c.totalSwaps (hamEqualities I c)
+  have core := stepCore_spec I fa hfa c.totalSwaps (hamEqualities I c)
     (c.graphs.map (·.setCutoff (maxCutoff c.graphs))) (c.rng.genBool (1 / 2))
-  have eA : (stepBody I (performSwaps I) c).1.eqA = some (hamEqualities I c).1 := core.2.2.2.2.1
-  have eB : (stepBody I (performSwaps I) c).1.eqB = some (hamEqualities I c).2 := core.2.2.2.2.2
+  have eA : (stepBody I fa c).1.eqA = some (hamEqualities I c).1 := core.2.2.2.2.1
+  have eB : (stepBody I fa c).1.eqB = some (hamEqualities I c).2 := core.2.2.2.2.2
   rw [hamEqualities_eq I c h] at eA eB
   constructor
   · intro a ha
@@ -443,6 +467,30 @@ theorem cacheValid_step (c : Container H) (h : CacheValid I c) :
     cases hb
     apply makeEqs_congr
     unfold secondSub
+    rw [List.map_drop, List.map_drop, List.map_take, List.map_take, hl, hh]
+
+theorem cacheValid_step (c : Container H) (h : CacheValid I c) :
+    CacheValid I (stepBody I (performSwaps I) c).1 :=
+  cacheValid_stepBody I _ (goodSwap_serial I) c h
+
+/-- changing configurations / cutoffs / the container rng, but no frame, keeps the cache valid -/
+theorem cacheValid_evolve (c : Container H) (gs' : List (Replica H)) (s : RS)
+    (hf : gs'.map Replica.frame = c.graphs.map Replica.frame) (h : CacheValid I c) :
+    CacheValid I { c with graphs := gs', rng := s } := by
+  have hh := frame_ham _ _ hf
+  have hl : gs'.length = c.graphs.length := by simpa using congrArg List.length hh
+  constructor
+  · intro a ha
+    rw [h.1 a ha]
+    apply makeEqs_congr
+    unfold firstSub
+    simp only []
+    rw [List.map_take, List.map_take, hl, hh]
+  · intro b hb
+    rw [h.2 b hb]
+    apply makeEqs_congr
+    unfold secondSub
+    simp only []
     rw [List.map_drop, List.map_drop, List.map_take, List.map_take, hl, hh]
 
 end Tempering
